@@ -4,7 +4,7 @@ import WcModel.Spec.Scope
 namespace WcModel.Driver
 open WcModel.Proto
 
-/-- `spec <ci> <ext> <pattern> <name>…` → `ok <bits>` (documented language, no dot rule) or
+/-- `spec <ci> <ext> <pattern> <name>…` → `ok <bits> <startSafe> <negFree>` (documented language, no dot rule) or
     `none` when the pattern is outside the strict documented grammar, `oos` when a `!(…)` is
     outside the scope C01 states -/
 def handleSpec : List String → Option String
@@ -15,9 +15,10 @@ def handleSpec : List String → Option String
     match Grammar.parsePat ext pat with
     | none => pure "none"
     | some g =>
-      if !g.c01Scope then pure "oos" else
+      if !g.c01Scope || !g.noSlash then pure "oos" else
       let ns ← names.mapM decStr
-      pure ("ok " ++ String.ofList (ns.map (fun n => if g.langB ci n then '1' else '0')))
+      pure ("ok " ++ String.ofList (ns.map (fun n => if g.langB ci n then '1' else '0')) ++
+        " " ++ encBool g.startSafe ++ " " ++ encBool g.negFree)
   | _ => none
 
 end WcModel.Driver
